@@ -95,6 +95,7 @@ def replay (j : Json) : R Verdict := do
           pf := ("C14", s!"op {i}: the adaptive mutation scale is not positive and finite: {repr sc}") :: pf
       | .error _ => pure ()
     i := i + 1
+  if (fieldD j "longHistory").getBool?.toOption == some true then tags := "long-adaptive-history" :: tags
   if !(fieldD j "badMeta").isNull then
     pf := ("C14", s!"an individual was created with adaptive parameters outside their ranges (probabilities in [0,1], scale positive and finite): {(fieldD j "badMeta").compress}") :: pf
   match (fieldD j "runPanic").getStr?.toOption with
